@@ -2349,12 +2349,17 @@ func (p *Parser) evaluateComparison(ctx context) (Expression, error) {
 	if err != nil {
 		return nil, err
 	}
-	operatorToken := p.peek()
-	operator := operatorToken.Value()
 
-	if operatorToken.Type() == lexer.COMPARE_OPERATOR {
+	// Comparison operators all have the same precedence and are left-associative (a < b == c is (a < b) == c).
+	for {
+		operatorToken := p.peek()
+		operator := operatorToken.Value()
+
+		if operatorToken.Type() != lexer.COMPARE_OPERATOR {
+			break
+		}
 		p.eat() // Eat operator token.
-		rightExpression, err := p.evaluateComparison(ctx)
+		rightExpression, err := p.evaluateAddition(ctx)
 
 		if err != nil {
 			return nil, err
@@ -2370,7 +2375,7 @@ func (p *Parser) evaluateComparison(ctx context) (Expression, error) {
 		if !slices.Contains(allowedOperators, operator) {
 			return nil, p.expectedError(fmt.Sprintf(`valid %s operator but got "%s"`, leftType.String(), operator), operatorToken)
 		}
-		return NewComparison(leftExpression, operator, rightExpression), nil
+		leftExpression = NewComparison(leftExpression, operator, rightExpression)
 	}
 	return leftExpression, nil
 }
